@@ -58,6 +58,10 @@ func emitPkt(e *dpadv.Env, res *dpadv.Result, tw twin) {
 	out.Emit(vt.M{"ev": "pkt", "id": nPkt, "p": res.A, "g": res.G, "o": res.O, "s": res.S, "tw": tw})
 }
 
+func emitPlain(e *dpadv.Env, res *dpadv.Result) {
+	emitPkt(e, res, twin{Disp: "none", Osc: "none", Phf: -1})
+}
+
 // runOne concretises a, runs it and logs it; for EPIC packets the embedded SCION path is run as well.
 func runOne(e *dpadv.Env, a *dpadv.APkt, o dpadv.BuildOpts) *dpadv.Result {
 	now := time.Now()
@@ -135,9 +139,9 @@ func main() {
 				doPacket(e, a, r)
 			}
 		case l.Ohp > 0:
-			dpadv.OhpJourneys(e, r, l.Ohp, out)
+			dpadv.OhpJourneys(e, r, l.Ohp, out, emitPlain)
 		case l.Bfd > 0:
-			dpadv.BfdHistories(e.Cfg, r, l.Bfd, out)
+			dpadv.BfdHistories(e.Cfg, r, l.Bfd, out, emitPlain)
 		}
 	}
 }
